@@ -122,6 +122,10 @@ void NiString::Write(NiOStream& stream, const int szSize) {
 
 
 void NiStringRef::Read(NiIStream& stream) {
+#ifdef NIFLY_VERIF
+	if (verif::observer)
+		verif::observer->StringRef(&stream, nullptr, this);
+#endif
 	if (stream.GetVersion().File() < V20_1_0_3) {
 		std::array<char, 2048 + 1> buf{};
 
@@ -141,6 +145,10 @@ void NiStringRef::Read(NiIStream& stream) {
 }
 
 void NiStringRef::Write(NiOStream& stream) {
+#ifdef NIFLY_VERIF
+	if (verif::observer)
+		verif::observer->StringRef(nullptr, &stream, this);
+#endif
 	if (stream.GetVersion().File() < V20_1_0_3) {
 		auto sz = uint32_t(str.length());
 		str.resize(sz);
